@@ -145,6 +145,7 @@ def minimise(v, max_runs=160):
 def free_trace(mi, script, plan=()):
     sim = Sim(mi, script, plan, budget=CAP)
     PC, ST, DP, HL = [0], [mi.stmt_at(0)], [0], [0]
+    GD = [0]     # GOSUBs pending in the current frame
 
     def post(s, n):
         cpu = s.cpu
@@ -154,8 +155,10 @@ def free_trace(mi, script, plan=()):
         # about to execute `frame`: logically already inside the callee
         DP.append(frame_depth(cpu) + (1 if ins is not None and ins[0] == 'frame' else 0))
         HL.append(len(s.history))
+        GD.append(getattr(cpu.cur_frame, 'gosub_depth', 0) if cpu.cur_frame is not None else 0)
     sim.post_hooks.append(post)
     out = sim.run()
+    sim.gosub_trace = GD
     return sim, out, PC, ST, DP, HL
 
 
@@ -201,13 +204,13 @@ def execute(scn):
     lists = [scn['operator']] if scn.get('operator') is not None else scn['operators']
     for ops in lists:
         one = dict(scn, operator=ops, operators=None)
-        debug_run(one, mi, res, fout, fhist, T, PC, ST, DP, HL)
+        debug_run(one, mi, res, fout, fhist, T, PC, ST, DP, HL, fsim.gosub_trace)
         if res.violations:
             break
     return res
 
 
-def debug_run(scn, mi, res, fout, fhist, T, PC, ST, DP, HL):
+def debug_run(scn, mi, res, fout, fhist, T, PC, ST, DP, HL, GD=None):
     cfg = scn['config']
 
     def bad(cls, detail, sig=None):
@@ -396,6 +399,15 @@ def debug_run(scn, mi, res, fout, fhist, T, PC, ST, DP, HL):
                     res.count('probe_breakpoint_hit_twice')
             else:
                 res.count('continue_to_end_checked')
+        # ... nor inside a GOSUB routine the current statement called (same
+        # frame, more GOSUBs pending), e.g. a routine that GOSUBs itself
+        if word == 'next' and not halted0 and not finished and GD is not None and t <= T \
+                and not (model_bp_hit(n)) and DP[n] == d0 and GD[n] > GD[t] \
+                and st0 is not None and st0[6] != 'ResumeStmt':
+            bad('C12:next-entered-callee', {'cmd': cmd, 'index': idx, 'tick': n, 'what': 'GOSUB routine',
+                                            'gosubs_before': GD[t], 'gosubs_after': GD[n],
+                                            'line': st1[2] if st1 else None}, sig={'kind': 'gosub'})
+            return res
         if word in ('step', 'next') and DP[n] != d0:
             res.count('probe_step_changed_frame_depth')
     # end state must equal the free run's
